@@ -45,7 +45,8 @@ class Monitor:
         self.stats[k] = self.stats.get(k, 0) + 1
 
     def hit(self, prop, key, what):
-        self.hits.append((prop, key, what))
+        for p in ([prop] if isinstance(prop, str) else prop):
+            self.hits.append((p, key, what))
 
     # ---- per task step -----------------------------------------------------------------------------
     def snapshot(self):
@@ -156,7 +157,7 @@ class Monitor:
                 if role == "Defender":
                     att_success = any(g._agent_status[a].value == "Success" for a, (_, r) in g.agents.items() if r == "Attacker")
                     if (reason == "Success") == att_success:
-                        self.hit("C04", "defender reason", f"defender's reason is {reason} while an attacker {'succeeded' if att_success else 'did not succeed'}")
+                        self.hit(["C04", "C05", "C06"], "defender reason", f"defender's reason is {reason} while an attacker {'succeeded' if att_success else 'did not succeed'}")
                 self.final[addr] = (obs["reward"], obs["state"])
             held = g._agent_states.get(addr)
             if held is not None and self.S.view_id(held) != self.S.view_id(obs["state"]):
@@ -280,7 +281,7 @@ def instrument(S, cfg, CR, goals):
     return M
 
 
-def run_sessions(ctx, prop, n_sessions, gen_opts, cfg_opts=None, extra_monitor=None):
+def run_sessions(ctx, prop, n_sessions, gen_opts, cfg_opts=None, extra_monitor=None, n_directed=14):
     """Generate sessions, follow them with the model, collect this property's monitor hits."""
     CG, CR, nsgenv = _imports()
     rng0 = random.Random(ctx.seed * 104729 + int(prop[1:]))
@@ -290,10 +291,35 @@ def run_sessions(ctx, prop, n_sessions, gen_opts, cfg_opts=None, extra_monitor=N
     labels = 0
     for i in range(n_sessions):
         rng = random.Random(rng0.randrange(1 << 40))
-        cfg, draw = CG.gen_config(rng, **(cfg_opts(rng) if cfg_opts else {}))
-        opts = gen_opts(rng) if callable(gen_opts) else dict(gen_opts)
-        G = CG.Gen(rng, cfg, draw, **opts)
-        M = instrument(G.S, cfg, CR, CG.goals_of(cfg))
+        if i < n_directed:
+            # directed scenarios first: the monitor is attached by wrapping Session creation
+            holder = {}
+            orig_init = CR.Session.__init__
+
+            def init(self, cfg_, *a, **k):
+                orig_init(self, cfg_, *a, **k)
+                holder["M"] = instrument(self, cfg_, CR, CG.goals_of(cfg_))
+            CR.Session.__init__ = init
+            try:
+                S, cfg, draw = CG.directed(rng, i)
+            except Exception as e:
+                import traceback
+                ctx.stage_errors.append((f"directed session {i}", f"{type(e).__name__}: {e}\n{traceback.format_exc()[-600:]}"))
+                continue
+            finally:
+                CR.Session.__init__ = orig_init
+
+            class _G:
+                pass
+            G = _G()
+            G.S = S
+            G.run = lambda S=S: S
+            M = holder["M"]
+        else:
+            cfg, draw = CG.gen_config(rng, **(cfg_opts(rng) if cfg_opts else {}))
+            opts = gen_opts(rng) if callable(gen_opts) else dict(gen_opts)
+            G = CG.Gen(rng, cfg, draw, **opts)
+            M = instrument(G.S, cfg, CR, CG.goals_of(cfg))
         try:
             try:
                 S = G.run()
